@@ -21,6 +21,7 @@
 (*     unistar a=<<T>>          Uniform( *T )                                     *)
 (*     add sub mul truediv floordiv mod pow divmod   a=<<x,y>>                    *)
 (*     neg pos abs len  a=<<x>>                                                  *)
+(*     vmulx   a=<<a,b>>   the x coordinate of Vector(a, 2, 0) * b, i.e. a * b   *)
 (*     getitem a=<<T,i>>        slice a=<<T,start,stop,step>> (0 = omitted)       *)
 (*     attr    a=<<obj>> c=<<field>>                                             *)
 (*     call    a=<<args>> c=<<fid, flag_1..flag_n>>   flag 0 positional, -1 starred, *)
@@ -41,7 +42,9 @@ Args(q, n) == Cases[q].nodes[n].a
 Cst(q, n) == Cases[q].nodes[n].c
 
 \* ------------------------------------------------------------------ values
-\*  <<"n", num, den>>  number          <<"t", <<..>>>> tuple / namedtuple     <<"l", <<..>>>> list
+\*  <<"n", num, den>>  number      <<"t", <<..>>>> plain tuple      <<"l", <<..>>>> list
+\*  <<"b", <<u, v>>>>  namedtuple Box(u, v): a tuple for ==, +, slicing, unpacking, but with
+\*                     attributes and methods -- the container TYPE is part of the value
 \*  <<"e", 1>> plain Python raises     <<"e", 2>> outside the exact universe of this spec
 \*  <<"u">> not determined yet (an undrawn leaf below)      <<"none">> omitted operand
 MaxNum == 30000
@@ -56,7 +59,8 @@ NumI(i) == Num(QInt(i))
 Bool(b) == IF b THEN <<"n", 1, 1>> ELSE <<"n", 0, 1>>
 Q(v) == <<v[2], v[3]>>
 IsN(v) == v[1] = "n"
-IsSeq(v) == v[1] = "t" \/ v[1] = "l"
+IsSeq(v) == v[1] = "t" \/ v[1] = "l" \/ v[1] = "b"
+IsTup(v) == v[1] = "t" \/ v[1] = "b"
 IsErr(v) == v[1] = "e"
 IsU(v) == v[1] = "u"
 IsNone(v) == v[1] = "none"
@@ -82,7 +86,9 @@ Arith(op, x, y) ==
 BinOp(op, vx, vy) ==
   IF IsN(vx) /\ IsN(vy) THEN Arith(op, Q(vx), Q(vy))
   ELSE IF op = "add" /\ IsSeq(vx) /\ IsSeq(vy)
-       THEN (IF vx[1] = vy[1] THEN <<vx[1], vx[2] \o vy[2]>> ELSE ErrPy)   \* tuple + list: TypeError
+       THEN (IF vx[1] = "l" /\ vy[1] = "l" THEN <<"l", vx[2] \o vy[2]>>
+             ELSE IF IsTup(vx) /\ IsTup(vy) THEN <<"t", vx[2] \o vy[2]>>      \* namedtuple + tuple: a plain tuple
+             ELSE ErrPy)                                                    \* tuple + list: TypeError
   ELSE IF op = "mul" THEN ErrOut                                           \* sequence repetition: not modelled
   ELSE ErrPy
 
@@ -134,6 +140,14 @@ RECURSIVE FoldMax(_, _), FoldMin(_, _)
 FoldMax(s, i) == IF i = Len(s) THEN Q(s[i]) ELSE QMax(Q(s[i]), FoldMax(s, i + 1))
 FoldMin(s, i) == IF i = Len(s) THEN Q(s[i]) ELSE QMin(Q(s[i]), FoldMin(s, i + 1))
 
+\* == between sequences is decided here only for list/list and tuple-like/tuple-like
+SameSeqKind(x, y) == (x[1] = "l" /\ y[1] = "l") \/ (IsTup(x) /\ IsTup(y))
+\* Horner: digits(d1, .., dn) = ((d1 * 10 + d2) * 10 + ..) + dn -- order-sensitive in every position
+RECURSIVE Dig(_, _, _)
+Dig(s, i, acc) == IF i > Len(s) THEN acc ELSE Dig(s, i + 1, QAdd(QMul(QInt(10), acc), Q(s[i])))
+RECURSIVE CountEq(_, _, _)
+CountEq(s, x, i) == IF i > Len(s) THEN 0 ELSE (IF s[i] = x THEN 1 ELSE 0) + CountEq(s, x, i + 1)
+
 Cmp(fid, x, y) ==
   CASE fid = 4 -> QLt(x, y) [] fid = 5 -> QLe(x, y) [] fid = 6 -> x = y
     [] fid = 7 -> x # y     [] fid = 8 -> QLt(y, x) [] fid = 9 -> QLe(y, x)
@@ -141,6 +155,8 @@ Cmp(fid, x, y) ==
 \*  1 vsum(a, b=0, c=0) = a + 10*b + 100*c      2 max(..)   3 min(..)
 \*  4..9 vlt vle veq vne vgt vge (a, b)          10 vite(c, a, b=0) = a if c else b
 \*  11 hypot(a, b)   12 int(x)   13 round(x[, 0])   14 float(x)
+\*  15 vdig( *ds ) = digits(ds)   16 vcat(a, b) = a + b   17 vkind(s) = 0 number, 1 tuple, 2 list, 3 Box
+\*  18 vcount(s, x) = s.count(x)
 Fn(fid, fl, cv) ==
   CASE fid = 1 -> LET P == Bind(3, <<None, NumI(0), NumI(0)>>, fl, cv)
                   IN IF P = <<>> \/ ~AllN(P) THEN ErrPy ELSE Lin(P[1], P[2], P[3])
@@ -156,8 +172,8 @@ Fn(fid, fl, cv) ==
     [] fid \in 4..9 -> LET P == Bind(2, <<None, None>>, fl, cv)
                        IN IF P = <<>> THEN ErrPy
                           ELSE IF AllN(P) THEN Bool(Cmp(fid, Q(P[1]), Q(P[2])))
-                          ELSE IF fid = 6 /\ IsSeq(P[1]) /\ IsSeq(P[2]) /\ P[1][1] = P[2][1] THEN Bool(P[1] = P[2])
-                          ELSE IF fid = 7 /\ IsSeq(P[1]) /\ IsSeq(P[2]) /\ P[1][1] = P[2][1] THEN Bool(P[1] # P[2])
+                          ELSE IF fid = 6 /\ SameSeqKind(P[1], P[2]) THEN Bool(P[1][2] = P[2][2])
+                          ELSE IF fid = 7 /\ SameSeqKind(P[1], P[2]) THEN Bool(P[1][2] # P[2][2])
                           ELSE ErrOut
     [] fid = 10 -> LET P == Bind(3, <<None, None, NumI(0)>>, fl, cv)
                    IN IF P = <<>> THEN ErrPy
@@ -177,15 +193,37 @@ Fn(fid, fl, cv) ==
                       ELSE ErrOut
     [] fid = 14 -> LET P == Bind(1, <<None>>, fl, cv)
                    IN IF P = <<>> \/ ~AllN(P) THEN ErrPy ELSE P[1]
+    [] fid = 15 -> IF \E i \in 1..Len(fl) : fl[i] > 0 THEN ErrPy
+                   ELSE IF \E i \in 1..Len(cv) : fl[i] = -1 /\ ~IsSeq(cv[i]) THEN ErrPy
+                   ELSE LET pos == PosArgs(fl, cv, 1)
+                        IN IF ~AllN(pos) THEN ErrPy ELSE Num(Dig(pos, 1, <<0, 1>>))
+    [] fid = 16 -> LET P == Bind(2, <<None, None>>, fl, cv)
+                   IN IF P = <<>> THEN ErrPy ELSE BinOp("add", P[1], P[2])
+    [] fid = 17 -> LET P == Bind(1, <<None>>, fl, cv)
+                   IN IF P = <<>> THEN ErrPy
+                      ELSE NumI(CASE P[1][1] = "n" -> 0 [] P[1][1] = "t" -> 1 [] P[1][1] = "l" -> 2 [] P[1][1] = "b" -> 3)
+    [] fid = 18 -> LET P == Bind(2, <<None, None>>, fl, cv)
+                   IN IF P = <<>> \/ ~IsSeq(P[1]) THEN ErrPy
+                      ELSE IF ~IsN(P[2]) \/ ~AllN(P[1][2]) THEN ErrOut
+                      ELSE NumI(CountEq(P[1][2], P[2], 1))
 
 \* methods of Box(u, v):  1  f(self, a, b=0) = self.u + 10*a + 100*b     2  g(..) = self.v + 10*a + 100*b
-IsBox(v) == v[1] = "t" /\ Len(v[2]) = 2 /\ AllN(v[2])
+\*   3  h(self, *ds) = digits(self.u, *ds)   4  k(self, *ds) = digits(self.v, *ds)   (g, k: @distributionMethod)
+\* a plain tuple has neither attributes nor methods (AttributeError)
+IsBox(v) == v[1] = "b" /\ Len(v[2]) = 2 /\ AllN(v[2])
 Meth(mid, fl, cv) ==
   LET obj == cv[1]
-      P == Bind(2, <<None, NumI(0)>>, fl, Tail(cv))
+      rest == Tail(cv)
   IN IF ~IsBox(obj) THEN ErrPy
-     ELSE IF P = <<>> \/ ~AllN(P) THEN ErrPy
-     ELSE Lin(obj[2][IF mid = 1 THEN 1 ELSE 2], P[1], P[2])
+     ELSE IF mid \in {1, 2}
+          THEN LET P == Bind(2, <<None, NumI(0)>>, fl, rest)
+               IN IF P = <<>> \/ ~AllN(P) THEN ErrPy
+                  ELSE Lin(obj[2][IF mid = 1 THEN 1 ELSE 2], P[1], P[2])
+     ELSE IF \E i \in 1..Len(fl) : fl[i] > 0 THEN ErrPy
+     ELSE IF \E i \in 1..Len(rest) : fl[i] = -1 /\ ~IsSeq(rest[i]) THEN ErrPy
+     ELSE LET pos == PosArgs(fl, rest, 1)
+          IN IF ~AllN(pos) THEN ErrPy
+             ELSE Num(Dig(<<obj[2][IF mid = 3 THEN 1 ELSE 2]>> \o pos, 1, <<0, 1>>))
 
 \* ------------------------------------------------------------------ static typing
 \* Nodes whose Python value is statically an `int` (needed where Python insists on an
@@ -266,10 +304,12 @@ Det(q, n, v, prev, dev) ==
                           IN IF IsU(w) \/ IsErr(w) THEN w
                              ELSE IF ~IsN(w) THEN ErrPy ELSE Num(QAdd(<<c[1], c[2]>>, Q(w)))
   ELSE IF ~IsNone(bad) THEN bad
-  ELSE CASE kd \in {"tuple", "box"} -> <<"t", cv>>
+  ELSE CASE kd = "tuple" -> <<"t", cv>>
+         [] kd = "box" -> <<"b", cv>>
          [] kd = "list" -> <<"l", cv>>
          [] kd \in {"add", "sub", "mul", "truediv", "mod", "pow", "divmod"} -> BinOp(kd, cv[1], cv[2])
          [] kd = "floordiv" -> IF dev /\ IsConstOne(q, a[2]) /\ IsN(cv[1]) THEN cv[1] ELSE BinOp(kd, cv[1], cv[2])
+         [] kd = "vmulx" -> IF IsN(cv[1]) /\ IsN(cv[2]) THEN BinOp("mul", cv[1], cv[2]) ELSE ErrPy   \* (Vector(a, 2, 0) * b).x
          [] kd \in {"neg", "pos", "abs"} -> UnOp(kd, cv[1])
          [] kd = "len" -> IF IsSeq(cv[1]) THEN NumI(Len(cv[1][2])) ELSE ErrPy
          [] kd = "getitem" ->
@@ -284,8 +324,8 @@ Det(q, n, v, prev, dev) ==
               ELSE IF \E i \in 2..4 : ~IsNone(cv[i]) /\ (~IsN(cv[i]) \/ ~IT(q, a[i])) THEN ErrOut
               ELSE IF ~IsNone(cv[4]) /\ cv[4][2] = 0 THEN ErrPy                  \* slice step cannot be zero
               ELSE LET idx == SliceIdx(Len(cv[1][2]), cv[2], cv[3], cv[4])
-                   IN <<cv[1][1], [j \in 1..Len(idx) |-> cv[1][2][idx[j] + 1]]>>
-         [] kd = "attr" -> IF cv[1][1] = "t" /\ c[1] <= Len(cv[1][2]) THEN cv[1][2][c[1]] ELSE ErrPy
+                   IN <<IF cv[1][1] = "l" THEN "l" ELSE "t", [j \in 1..Len(idx) |-> cv[1][2][idx[j] + 1]]>>
+         [] kd = "attr" -> IF cv[1][1] = "b" /\ c[1] <= Len(cv[1][2]) THEN cv[1][2][c[1]] ELSE ErrPy
          [] kd = "call" -> Fn(c[1], Tail(c), cv)
          [] kd = "meth" -> Meth(c[1], Tail(c), cv)
 
@@ -416,6 +456,16 @@ ConstLeftConcatTrigger(q) ==
   LET rd == RandomUpTo(q, NN(q))  pl == PlainUpTo(q, NN(q)) IN
   \E n \in 1..NN(q) : /\ Kind(q, n) = "add" /\ pl[Args(q, n)[1]]
                       /\ rd[Args(q, n)[2]] /\ ~pl[Args(q, n)[2]]
+\* DiscreteLazyLiteral: a weighted Discrete({..}) one of whose options is a container LITERAL holding
+\* a lazily evaluated element (Options.evaluateInner re-evaluates the unconverted dict keys)
+DiscreteLazyLiteralTrigger(q) ==
+  LET lz == LazyUpTo(q, NN(q))  pl == PlainUpTo(q, NN(q)) IN
+  \E n \in 1..NN(q) : Kind(q, n) = "discrete" /\ \E i \in 1..Len(Args(q, n)) : pl[Args(q, n)[i]] /\ lz[Args(q, n)[i]]
+\* VectorOperatorLazySelf: a lifted vector operator (Vector * scalar) whose scalar needs lazy
+\* evaluation but no sampling (vectorOperator's delayed call drops `self`)
+VectorOpLazySelfTrigger(q) ==
+  LET lz == LazyUpTo(q, NN(q))  rd == RandomUpTo(q, NN(q)) IN
+  \E n \in 1..NN(q) : Kind(q, n) = "vmulx" /\ lz[Args(q, n)[2]] /\ ~rd[Args(q, n)[2]]
 \* StarCallRandomReceiver: star-unpacking into a method of a RANDOM receiver (Uniform(o1, o2).f( *T ))
 StarCallRandomReceiverTrigger(q) ==
   LET rd == RandomUpTo(q, NN(q)) IN
@@ -511,7 +561,8 @@ SeqLaw == Good =>
     /\ \A n \in NodesOf({"slice"}) :
           /\ Len(val[n][2]) <= Len(val[Args(q, n)[1]][2])
           /\ \A j \in 1..Len(val[n][2]) : \E i \in 1..Len(val[Args(q, n)[1]][2]) : val[n][2][j] = val[Args(q, n)[1]][2][i]
-          /\ (Args(q, n)[2] = 0 /\ Args(q, n)[3] = 0 /\ Args(q, n)[4] = 0 => val[n] = val[Args(q, n)[1]])
+          /\ (Args(q, n)[2] = 0 /\ Args(q, n)[3] = 0 /\ Args(q, n)[4] = 0 => val[n][2] = val[Args(q, n)[1]][2])
+          /\ val[n][1] = (IF val[Args(q, n)[1]][1] = "l" THEN "l" ELSE "t")      \* a slice of a namedtuple is a plain tuple
     /\ \A n \in NodesOf({"len"}) : val[n][2] >= 0
 LeafLaw == Good =>
     /\ \A n \in NodesOf({"drange"}) : QLe(X(n, 1), Q(val[n])) /\ QLe(Q(val[n]), X(n, 2)) /\ QIsInt(Q(val[n]))
@@ -533,7 +584,9 @@ EmitCase ==
                     kwlazy |-> KwargLazyTrigger(q),
                     concat |-> ConstLeftConcatTrigger(q),
                     rangedr |-> RangeOfDrangeTrigger(q),
-                    starrecv |-> StarCallRandomReceiverTrigger(q)]))
+                    starrecv |-> StarCallRandomReceiverTrigger(q),
+                    dislazy |-> DiscreteLazyLiteralTrigger(q),
+                    veclazy |-> VectorOpLazySelfTrigger(q)]))
 \* one line per complete evaluation of a well-formed case: the value of EVERY node, and
 \* the as-implemented values when the deviation's trigger holds
 EmitRow ==
